@@ -536,7 +536,7 @@ Proof.
             eval (S (hdepth h)) h h c (Some e) = Some (r, calls) -> forall x, In x calls -> good_call g x).
   { intros e h r calls Hf Hev x Hx. destruct (eval_calls _ _ _ _ _ _ _ Hev) as [Hc Hn].
     specialize (Hc x Hx). destruct x as [y|y ey]; cbn [call_cid] in Hc; subst y; cbn [good_call].
-    - rewrite Hf. destruct e; [reflexivity | |];
+    - rewrite Hf. destruct e; [reflexivity | | |];
         (destruct (Hn eq_refl) as [_ Hm]; specialize (Hm _ Hx); discriminate).
     - rewrite Hf. discriminate. }
   destruct (n_fail (lookup g c)) as [e|] eqn:Hf.
